@@ -1,9 +1,11 @@
 import Pixman.Model.Fill
 import Pixman.Spec.Fill
 import Pixman.Lemmas.Fill
+import Pixman.Lemmas.FillSimd
+import Pixman.Lemmas.FillPattern
 /-! C19 — blt, fill and fill_boxes affect exactly the rectangle and agree with compositing. -/
 namespace Pixman.Props.C19
-open Pixman.Model.Fill Pixman.Spec.Fill Pixman.Lemmas.Fill
+open Pixman.Model.Fill Pixman.Spec.Fill Pixman.Lemmas.Fill Pixman.Lemmas.FillSimd Pixman.Lemmas.FillPattern
 
 /-! ## pixman_fill1_line -/
 
@@ -212,5 +214,392 @@ example (m : Mem) : fastPathFill m 0 4 24 1 1 5 5 0xffffff = (false, m) :=
   fastPathFill_unsupported m 0 4 24 1 1 5 5 0xffffff (by decide)
 example (m : Mem) : fastPathFill m 0 4 4 1 1 5 5 0xf = (false, m) :=
   fastPathFill_unsupported m 0 4 4 1 1 5 5 0xf (by decide)
+
+/-! ## SIMD fills and blts: the row programs as address ranges
+
+`Tiles a l b`: the stores of `l`, in program order, are non-empty, start at `a`, each starts where
+the previous one ended, and the last ends at `b` — every byte of `[a, b)` is written exactly once
+and no other byte is written. -/
+
+/-- `sse2_fill` row program, every alignment `al + d` and every byte width `W`: the stores tile
+`[d, d + W)` exactly and each store is aligned to its size (so `save_128_aligned` never faults) -/
+theorem sse2FillRow_tiles (al d : Int) (W : Nat) :
+    Tiles d (sse2FillRow al d W) (d + W) ∧
+    ∀ st ∈ sse2FillRow al d W, (al + st.addr) % (st.size : Int) = 0 :=
+  have h := sse2FillRow_done al d W 1 (Or.inl rfl) (Int.one_dvd _) (Nat.one_dvd _)
+  ⟨h.tiles, h.aligned⟩
+
+/-- `mmx_fill` row program -/
+theorem mmxFillRow_tiles (al d : Int) (W : Nat) :
+    Tiles d (mmxFillRow al d W) (d + W) ∧
+    ∀ st ∈ mmxFillRow al d W, (al + st.addr) % (st.size : Int) = 0 :=
+  have h := mmxFillRow_done al d W 1 (Or.inl rfl) (Int.one_dvd _) (Nat.one_dvd _)
+  ⟨h.tiles, h.aligned⟩
+
+/-- for 16 and 32 bpp (`B` = 2, 4 bytes per pixel; pixel-aligned row start and width) every store
+of the fills is a whole number of pixels, so the replicated pattern lands on pixel boundaries -/
+theorem fillRow_whole_pixels (al d : Int) (W B : Nat) (hB : B = 1 ∨ B = 2 ∨ B = 4)
+    (hd : (B : Int) ∣ al + d) (hw : B ∣ W) :
+    (∀ st ∈ sse2FillRow al d W, B ∣ st.size) ∧ (∀ st ∈ mmxFillRow al d W, B ∣ st.size) :=
+  ⟨(sse2FillRow_done al d W B hB hd hw).sizes, (mmxFillRow_done al d W B hB hd hw).sizes⟩
+
+/-- `sse2_blt` row program (16/32 bpp: even row start and even byte width) -/
+theorem sse2BltRow_tiles (al d : Int) (W : Nat) (hd : (2 : Int) ∣ al + d) (hw : 2 ∣ W) :
+    Tiles d (sse2BltRow al d W) (d + W) ∧
+    ∀ st ∈ sse2BltRow al d W, (al + st.addr) % (st.size : Int) = 0 :=
+  have h := sse2BltRow_done al d W 2 (Or.inl rfl) hd hw
+  ⟨h.tiles, h.aligned⟩
+
+/-- `mmx_blt` row program -/
+theorem mmxBltRow_tiles (al d : Int) (W : Nat) (hd : (2 : Int) ∣ al + d) (hw : 2 ∣ W) :
+    Tiles d (mmxBltRow al d W) (d + W) ∧
+    ∀ st ∈ mmxBltRow al d W, (al + st.addr) % (st.size : Int) = 0 :=
+  have h := mmxBltRow_done al d W 2 (Or.inl rfl) hd hw
+  ⟨h.tiles, h.aligned⟩
+
+/- e.g. `sse2FillRow 0 13 40 = [(13,1), (14,2), (16,16), (32,16), (48,4), (52,1)]`,
+`mmxFillRow 4 1 17 = [(1,1), (2,2), (4,4), (8,4), (12,4), (16,2)]` (`#eval`) -/
+example := sse2FillRow_tiles 0 13 40
+example := fillRow_whole_pixels 4 8 40 2 (Or.inr (Or.inl rfl)) ⟨6, rfl⟩ ⟨20, rfl⟩
+example := sse2BltRow_tiles 0 6 30 ⟨3, rfl⟩ ⟨15, rfl⟩
+example := mmxBltRow_tiles 0 6 30 ⟨3, rfl⟩ ⟨15, rfl⟩
+
+/-- one row of a SIMD fill: for a pixel-aligned row pointer exactly the `B * width` bytes of the row
+hold the pixel value -/
+theorem simdRow_bit (rowProg : Int → Int → Nat → List Store)
+    (hprog : ∀ (al d : Int) (W B : Nat), (B = 1 ∨ B = 2 ∨ B = 4) → (B : Int) ∣ al + d → B ∣ W →
+      Done al d W B (rowProg al d W))
+    (rep : Nat → Nat → Nat) (hrep : rep = sse2Filler ∨ rep = mmxFiller) (al : Int) (hal : (4 : Int) ∣ al)
+    (B : Nat) (hB : B = 1 ∨ B = 2 ∨ B = 4) (f width : Nat) (m : Mem) (d : Int) (hd : (B : Int) ∣ d)
+    (i : Int) :
+    (execFill (rep (8 * B) f) (rowProg al d (B * width)) m).bit i =
+      if d ≤ i / 8 ∧ i / 8 < d + (B * width : Nat) then
+        f.testBit (8 * ((i / 8) % (B : Int)).toNat + (i % 8).toNat)
+      else m.bit i := by
+  have hald : (B : Int) ∣ al + d := by
+    apply Int.dvd_add _ hd
+    rcases hB with rfl | rfl | rfl <;> omega
+  have D := hprog al d (B * width) B hB hald (Nat.dvd_mul_right _ _)
+  exact execFill_bit _ f B hB (fun k j hj => rep_pattern rep hrep B f k j hB hj) i _ d _ m D.tiles
+    D.sizes hd
+
+/-- the row loop of a SIMD fill writes exactly the rectangle -/
+theorem simdRows_exact (rowProg : Int → Int → Nat → List Store)
+    (hprog : ∀ (al d : Int) (W B : Nat), (B = 1 ∨ B = 2 ∨ B = 4) → (B : Int) ∣ al + d → B ∣ W →
+      Done al d W B (rowProg al d W))
+    (rep : Nat → Nat → Nat) (hrep : rep = sse2Filler ∨ rep = mmxFiller) (al : Int) (hal : (4 : Int) ∣ al)
+    (B : Nat) (hB : B = 1 ∨ B = 2 ∨ B = 4) (f width height : Nat) (m : Mem) (d0 us : Int)
+    (bits stride x y : Int) (hd0 : (B : Int) ∣ d0) (hus : (B : Int) ∣ us)
+    (hstart : ∀ r : Nat, d0 + r * us = rowStart bits stride (8 * B) x y r * B) :
+    FilledExactly m.bit
+      (rows (fun m d => execFill (rep (8 * B) f) (rowProg al d (B * width)) m) us height m d0).bit
+      bits stride (8 * B) x y width height f := by
+  intro i
+  have R := rows_bit_inv (fun m d => execFill (rep (8 * B) f) (rowProg al d (B * width)) m) us
+    (fun i => f.testBit (8 * ((i / 8) % (B : Int)).toNat + (i % 8).toNat))
+    (fun d i => d ≤ i / 8 ∧ i / 8 < d + (B * width : Nat))
+    (fun d => (B : Int) ∣ d) (fun d hd => Int.dvd_add hd hus)
+    (fun m d i hd hs => by
+      show (execFill (rep (8 * B) f) (rowProg al d (B * width)) m).bit i = _
+      rw [simdRow_bit rowProg hprog rep hrep al hal B hB f width m d hd, if_pos hs])
+    (fun m d i hd hs => by
+      show (execFill (rep (8 * B) f) (rowProg al d (B * width)) m).bit i = _
+      rw [simdRow_bit rowProg hprog rep hrep al hal B hB f width m d hd, if_neg hs])
+    i height m d0 hd0
+  have eqv : InRect bits stride (8 * B) x y width height (i / ((8 * B : Nat) : Int)) ↔
+      ∃ r : Nat, r < height ∧ d0 + r * us ≤ i / 8 ∧ i / 8 < d0 + r * us + (B * width : Nat) := by
+    unfold InRect
+    apply exists_lt_congr
+    intro r
+    rw [hstart r]
+    generalize rowStart bits stride (8 * B) x y r = rs
+    rcases hB with rfl | rfl | rfl <;> omega
+  have ev : f.testBit (8 * ((i / 8) % (B : Int)).toNat + (i % 8).toNat) =
+      f.testBit (i % ((8 * B : Nat) : Int)).toNat := by
+    congr 1
+    rcases hB with rfl | rfl | rfl <;> omega
+  rw [← ev]
+  exact ⟨fun h => R.1 (eqv.1 h), fun h => R.2 (fun hh => h (eqv.2 hh))⟩
+
+/-- `sse2_fill` / `mmx_fill` (`rowProg`, `rep` = the row program and filler replication of either):
+for 8, 16 and 32 bpp they return TRUE and the memory is the old one with exactly the rectangle
+filled — every x, width, height, stride (also negative) and every alignment of the buffer
+(`al`, the machine address of word 0, is a multiple of 4 as `bits` is a `uint32_t *`) -/
+theorem simdFill_exact (rowProg : Int → Int → Nat → List Store)
+    (hprog : ∀ (al d : Int) (W B : Nat), (B = 1 ∨ B = 2 ∨ B = 4) → (B : Int) ∣ al + d → B ∣ W →
+      Done al d W B (rowProg al d W))
+    (rep : Nat → Nat → Nat) (hrep : rep = sse2Filler ∨ rep = mmxFiller) (al : Int) (hal : (4 : Int) ∣ al)
+    (m : Mem) (bits stride : Int) (bpp : Nat) (x y : Int) (width height filler : Nat)
+    (hb : bpp = 8 ∨ bpp = 16 ∨ bpp = 32) :
+    (simdFill rowProg rep al m bits stride bpp x y width height filler).1 = true ∧
+    FilledExactly m.bit (simdFill rowProg rep al m bits stride bpp x y width height filler).2.bit
+      bits stride bpp x y width height filler := by
+  unfold simdFill
+  rw [if_pos hb]
+  refine ⟨rfl, ?_⟩
+  simp only []
+  rcases hb with rfl | rfl | rfl
+  · have := simdRows_exact rowProg hprog rep hrep al hal 1 (Or.inl rfl) filler width height m
+      ((bits * (4 / ((8 / 8 : Nat) : Int)) + stride * 4 / ((8 / 8 : Nat) : Int) * y + x) * ((8 / 8 : Nat) : Int))
+      (stride * 4 / ((8 / 8 : Nat) : Int) * ((8 / 8 : Nat) : Int)) bits stride x y
+      (Int.one_dvd _) (Int.one_dvd _)
+      (fun r => by
+        unfold rowStart
+        have c : ((32 / (8 * 1) : Nat) : Int) = 4 := by decide
+        have c1 : ((8 / 8 : Nat) : Int) = 1 := by decide
+        rw [c]; try rw [c1]
+        have d : stride * 4 / 1 = stride * 4 := by omega
+        have d4 : (4 : Int) / 1 = 4 := by decide
+        rw [d, d4]; grind)
+    exact this
+  · have := simdRows_exact rowProg hprog rep hrep al hal 2 (Or.inr (Or.inl rfl)) filler width height m
+      ((bits * (4 / ((16 / 8 : Nat) : Int)) + stride * 4 / ((16 / 8 : Nat) : Int) * y + x) * ((16 / 8 : Nat) : Int))
+      (stride * 4 / ((16 / 8 : Nat) : Int) * ((16 / 8 : Nat) : Int)) bits stride x y
+      (Int.dvd_mul_left _ _) (Int.dvd_mul_left _ _)
+      (fun r => by
+        unfold rowStart
+        have c : ((32 / (8 * 2) : Nat) : Int) = 2 := by decide
+        have c1 : ((16 / 8 : Nat) : Int) = 2 := by decide
+        rw [c]; try rw [c1]
+        have d : stride * 4 / 2 = stride * 2 := by omega
+        have d4 : (4 : Int) / 2 = 2 := by decide
+        rw [d, d4]; grind)
+    exact this
+  · have := simdRows_exact rowProg hprog rep hrep al hal 4 (Or.inr (Or.inr rfl)) filler width height m
+      ((bits * (4 / ((32 / 8 : Nat) : Int)) + stride * 4 / ((32 / 8 : Nat) : Int) * y + x) * ((32 / 8 : Nat) : Int))
+      (stride * 4 / ((32 / 8 : Nat) : Int) * ((32 / 8 : Nat) : Int)) bits stride x y
+      (Int.dvd_mul_left _ _) (Int.dvd_mul_left _ _)
+      (fun r => by
+        unfold rowStart
+        have c : ((32 / (8 * 4) : Nat) : Int) = 1 := by decide
+        have c1 : ((32 / 8 : Nat) : Int) = 4 := by decide
+        rw [c]; try rw [c1]
+        have d : stride * 4 / 4 = stride := by omega
+        have d4 : (4 : Int) / 4 = 1 := by decide
+        rw [d, d4]; grind)
+    exact this
+
+/-- `sse2_fill` writes exactly the rectangle -/
+theorem sse2Fill_exact (al : Int) (hal : (4 : Int) ∣ al) (m : Mem) (bits stride : Int) (bpp : Nat)
+    (x y : Int) (width height filler : Nat) (hb : bpp = 8 ∨ bpp = 16 ∨ bpp = 32) :
+    (sse2Fill al m bits stride bpp x y width height filler).1 = true ∧
+    FilledExactly m.bit (sse2Fill al m bits stride bpp x y width height filler).2.bit
+      bits stride bpp x y width height filler :=
+  simdFill_exact sse2FillRow sse2FillRow_done sse2Filler (Or.inl rfl) al hal m bits stride bpp x y
+    width height filler hb
+
+/-- `mmx_fill` writes exactly the rectangle -/
+theorem mmxFill_exact (al : Int) (hal : (4 : Int) ∣ al) (m : Mem) (bits stride : Int) (bpp : Nat)
+    (x y : Int) (width height filler : Nat) (hb : bpp = 8 ∨ bpp = 16 ∨ bpp = 32) :
+    (mmxFill al m bits stride bpp x y width height filler).1 = true ∧
+    FilledExactly m.bit (mmxFill al m bits stride bpp x y width height filler).2.bit
+      bits stride bpp x y width height filler :=
+  simdFill_exact mmxFillRow mmxFillRow_done mmxFiller (Or.inr rfl) al hal m bits stride bpp x y
+    width height filler hb
+
+example := sse2Fill_exact 12 ⟨3, rfl⟩ (.init fun _ => 0) 7 (-5) 16 3 1 40 3 0xabcd (Or.inr (Or.inl rfl))
+
+/-- `sse2_fill` / `mmx_fill`: any depth other than 8, 16, 32 is declined with the memory untouched -/
+theorem simdFill_unsupported (rowProg : Int → Int → Nat → List Store) (rep : Nat → Nat → Nat) (al : Int)
+    (m : Mem) (bits stride : Int) (bpp : Nat) (x y : Int) (width height filler : Nat)
+    (hb : bpp ≠ 8 ∧ bpp ≠ 16 ∧ bpp ≠ 32) :
+    simdFill rowProg rep al m bits stride bpp x y width height filler = (false, m) := by
+  unfold simdFill
+  rw [if_neg (by omega)]
+
+/-- `sse2_blt` / `mmx_blt`: different depths, or a depth other than 16 and 32: FALSE, destination
+untouched -/
+theorem simdBlt_declines (rowProg : Int → Int → Nat → List Store) (al : Int) (src dst : Mem)
+    (sb db ss ds : Int) (sbpp dbpp : Nat) (sx sy dx dy : Int) (w h : Nat)
+    (hb : sbpp ≠ dbpp ∨ (sbpp ≠ 16 ∧ sbpp ≠ 32)) :
+    simdBlt rowProg al src dst sb db ss ds sbpp dbpp sx sy dx dy w h = (false, dst) := by
+  unfold simdBlt
+  by_cases h1 : sbpp ≠ dbpp
+  · rw [if_pos h1]
+  · rw [if_neg h1, if_neg (by omega)]
+
+/-! ## the delegation chain -/
+
+/-- every implementation's `fill` either accepts or leaves the memory as it was -/
+theorem implFill_false_unchanged (al : Int) (imp : Impl) (f) (hf : imp.fill al = some f) (m : Mem)
+    (bits stride : Int) (bpp : Nat) (x y : Int) (w h filler : Nat)
+    (hr : (f m bits stride bpp x y w h filler).1 = false) :
+    (f m bits stride bpp x y w h filler).2 = m := by
+  cases imp <;> simp only [Impl.fill, Option.some.injEq, reduceCtorEq] at hf
+  · subst hf
+    revert hr; unfold sse2Fill simdFill
+    by_cases hb : bpp = 8 ∨ bpp = 16 ∨ bpp = 32
+    · rw [if_pos hb]; intro hr; cases hr
+    · rw [if_neg hb]; intro _; rfl
+  · subst hf
+    revert hr; unfold mmxFill simdFill
+    by_cases hb : bpp = 8 ∨ bpp = 16 ∨ bpp = 32
+    · rw [if_pos hb]; intro hr; cases hr
+    · rw [if_neg hb]; intro _; rfl
+  · subst hf
+    revert hr; unfold fastPathFill
+    split <;> intro hr <;> first | rfl | cases hr
+
+/-- `_pixman_implementation_fill` returns FALSE only when every implementation declined, and then
+nothing was written -/
+theorem implementationFill_false_unchanged (al : Int) (chain : List Impl) (m : Mem)
+    (bits stride : Int) (bpp : Nat) (x y : Int) (w h filler : Nat)
+    (hr : (implementationFill al chain m bits stride bpp x y w h filler).1 = false) :
+    (implementationFill al chain m bits stride bpp x y w h filler).2 = m := by
+  induction chain generalizing m with
+  | nil => rfl
+  | cons imp rest ih =>
+    unfold implementationFill at hr ⊢
+    cases hf : imp.fill al with
+    | none => simp only [hf] at hr ⊢; exact ih m hr
+    | some f =>
+      simp only [hf] at hr ⊢
+      by_cases h1 : (f m bits stride bpp x y w h filler).1 = true
+      · rw [if_pos h1] at hr; cases hr
+      · rw [if_neg h1] at hr ⊢
+        have h2 : (f m bits stride bpp x y w h filler).1 = false := by
+          cases hh : (f m bits stride bpp x y w h filler).1 <;> simp_all
+        have h3 := implFill_false_unchanged al imp f hf m bits stride bpp x y w h filler h2
+        rw [h3] at hr ⊢
+        exact ih m hr
+
+/-- the result of the chain is the result of the first implementation that accepts -/
+theorem implementationFill_exact (al : Int) (chain : List Impl) (m : Mem)
+    (bits stride : Int) (bpp : Nat) (x y : Int) (w h filler : Nat)
+    (hr : (implementationFill al chain m bits stride bpp x y w h filler).1 = true) :
+    ∃ imp ∈ chain, ∃ f, imp.fill al = some f ∧ (f m bits stride bpp x y w h filler).1 = true ∧
+      (implementationFill al chain m bits stride bpp x y w h filler).2 =
+        (f m bits stride bpp x y w h filler).2 := by
+  induction chain generalizing m with
+  | nil => cases hr
+  | cons imp rest ih =>
+    unfold implementationFill at hr ⊢
+    cases hf : imp.fill al with
+    | none =>
+      simp only [hf] at hr ⊢
+      obtain ⟨i, hi, f, h1, h2, h3⟩ := ih m hr
+      exact ⟨i, List.mem_cons_of_mem _ hi, f, h1, h2, h3⟩
+    | some f =>
+      simp only [hf] at hr ⊢
+      by_cases h1 : (f m bits stride bpp x y w h filler).1 = true
+      · rw [if_pos h1]
+        exact ⟨imp, List.mem_cons_self, f, hf, h1, rfl⟩
+      · rw [if_neg h1] at hr ⊢
+        have h2 : (f m bits stride bpp x y w h filler).1 = false := by
+          cases hh : (f m bits stride bpp x y w h filler).1 <;> simp_all
+        have h3 := implFill_false_unchanged al imp f hf m bits stride bpp x y w h filler h2
+        rw [h3] at hr ⊢
+        obtain ⟨i, hi, g, g1, g2, g3⟩ := ih m hr
+        exact ⟨i, List.mem_cons_of_mem _ hi, g, g1, g2, g3⟩
+
+/-- **pixman_fill** on any implementation chain (`al`: machine address of word 0, a multiple of 4):
+TRUE means the memory is the old one with exactly the rectangle filled with the filler narrowed to
+`bpp` bits; FALSE means nothing changed (`implementationFill_false_unchanged`) -/
+theorem pixmanFill_true_exact (al : Int) (hal : (4 : Int) ∣ al) (chain : List Impl) (m : Mem)
+    (bits stride : Int) (bpp : Nat) (x y : Int) (w h filler : Nat)
+    (hr : (pixmanFill al chain m bits stride bpp x y w h filler).1 = true) :
+    FilledExactly m.bit (pixmanFill al chain m bits stride bpp x y w h filler).2.bit bits stride bpp
+      x y w h filler := by
+  obtain ⟨imp, _, f, hf, h1, h2⟩ := implementationFill_exact al chain m bits stride bpp x y w h filler hr
+  unfold pixmanFill
+  rw [h2]
+  cases imp <;> simp only [Impl.fill, Option.some.injEq, reduceCtorEq] at hf
+  · subst hf
+    by_cases hb : bpp = 8 ∨ bpp = 16 ∨ bpp = 32
+    · exact (sse2Fill_exact al hal m bits stride bpp x y w h filler hb).2
+    · rw [show sse2Fill = simdFill sse2FillRow sse2Filler from rfl,
+        simdFill_unsupported _ _ _ _ _ _ _ _ _ _ _ _ (by omega)] at h1
+      cases h1
+  · subst hf
+    by_cases hb : bpp = 8 ∨ bpp = 16 ∨ bpp = 32
+    · exact (mmxFill_exact al hal m bits stride bpp x y w h filler hb).2
+    · rw [show mmxFill = simdFill mmxFillRow mmxFiller from rfl,
+        simdFill_unsupported _ _ _ _ _ _ _ _ _ _ _ _ (by omega)] at h1
+      cases h1
+  · subst hf
+    by_cases hb : bpp = 1 ∨ bpp = 8 ∨ bpp = 16 ∨ bpp = 32
+    · exact (fastPathFill_exact m bits stride bpp x y w h filler hb).2
+    · rw [fastPathFill_unsupported _ _ _ _ _ _ _ _ _ (by omega)] at h1
+      cases h1
+
+/-- with only the general implementation left (`PIXMAN_DISABLE="fast mmx sse2 ssse3"`) `pixman_fill`
+declines every request and writes nothing -/
+theorem pixmanFill_general_declines (al : Int) (m : Mem) (bits stride : Int) (bpp : Nat) (x y : Int)
+    (w h filler : Nat) :
+    pixmanFill al (chainOf ["fast", "mmx", "sse2", "ssse3"]) m bits stride bpp x y w h filler =
+      (false, m) := by
+  have : chainOf ["fast", "mmx", "sse2", "ssse3"] = [.noop, .general] := by decide
+  rw [this]; rfl
+
+example : chainOf [] = [.noop, .ssse3, .sse2, .mmx, .fast, .general] := by decide
+example : chainOf ["ssse3", "sse2", "mmx"] = [.noop, .fast, .general] := by decide
+
+/-- every implementation's `blt` either accepts or leaves the destination as it was -/
+theorem implementationBlt_false_unchanged (al : Int) (chain : List Impl) (s d : Mem)
+    (sb db ss ds : Int) (sbpp dbpp : Nat) (sx sy dx dy : Int) (w h : Nat)
+    (hr : (implementationBlt al chain s d sb db ss ds sbpp dbpp sx sy dx dy w h).1 = false) :
+    (implementationBlt al chain s d sb db ss ds sbpp dbpp sx sy dx dy w h).2 = d := by
+  have key : ∀ (rowProg : Int → Int → Nat → List Store) (d : Mem),
+      (simdBlt rowProg al s d sb db ss ds sbpp dbpp sx sy dx dy w h).1 = false →
+      (simdBlt rowProg al s d sb db ss ds sbpp dbpp sx sy dx dy w h).2 = d := by
+    intro rowProg d hr
+    revert hr; unfold simdBlt
+    by_cases h1 : sbpp ≠ dbpp
+    · rw [if_pos h1]; intro _; rfl
+    · rw [if_neg h1]
+      by_cases h2 : sbpp = 16 ∨ sbpp = 32
+      · rw [if_pos h2]; intro hr; cases hr
+      · rw [if_neg h2]; intro _; rfl
+  induction chain generalizing d with
+  | nil => rfl
+  | cons imp rest ih =>
+    unfold implementationBlt at hr ⊢
+    cases imp <;> simp only [Impl.blt] at hr ⊢
+    case sse2 =>
+      by_cases h1 : (sse2Blt al s d sb db ss ds sbpp dbpp sx sy dx dy w h).1 = true
+      · rw [if_pos h1] at hr; cases hr
+      · rw [if_neg h1] at hr ⊢
+        have h2 : (sse2Blt al s d sb db ss ds sbpp dbpp sx sy dx dy w h).1 = false := by
+          cases hh : (sse2Blt al s d sb db ss ds sbpp dbpp sx sy dx dy w h).1 <;> simp_all
+        have h3 := key sse2BltRow d h2
+        unfold sse2Blt at hr ⊢
+        rw [h3] at hr ⊢
+        exact ih d hr
+    case mmx =>
+      by_cases h1 : (mmxBlt al s d sb db ss ds sbpp dbpp sx sy dx dy w h).1 = true
+      · rw [if_pos h1] at hr; cases hr
+      · rw [if_neg h1] at hr ⊢
+        have h2 : (mmxBlt al s d sb db ss ds sbpp dbpp sx sy dx dy w h).1 = false := by
+          cases hh : (mmxBlt al s d sb db ss ds sbpp dbpp sx sy dx dy w h).1 <;> simp_all
+        have h3 := key mmxBltRow d h2
+        unfold mmxBlt at hr ⊢
+        rw [h3] at hr ⊢
+        exact ih d hr
+    all_goals exact ih d hr
+
+/-! ## pixman_image_fill_boxes: operator reduction, rect → box -/
+
+/-- the operator reduction: CLEAR is SRC with the zero colour, OVER with an opaque colour is SRC,
+everything else is left alone -/
+theorem reduceOp_cases (op : Nat) (c : Color) :
+    (op = OP_CLEAR → reduceOp op c = (OP_SRC, ⟨0, 0, 0, 0⟩)) ∧
+    (op = OP_OVER → c.alpha = 0xffff → reduceOp op c = (OP_SRC, c)) ∧
+    (op = OP_OVER → c.alpha ≠ 0xffff → reduceOp op c = (OP_OVER, c)) ∧
+    (op ≠ OP_CLEAR → op ≠ OP_OVER → reduceOp op c = (op, c)) := by
+  unfold reduceOp OP_CLEAR OP_SRC OP_OVER
+  refine ⟨?_, ?_, ?_, ?_⟩
+  · rintro rfl; by_cases h : c.alpha = 0xffff <;> simp [h]
+  · rintro rfl h; simp [h]
+  · rintro rfl h; simp [h]
+  · intro h1 h2; by_cases h : c.alpha = 0xffff <;> simp [h, h1, h2]
+
+/-- `pixman_image_fill_rectangles` hands `pixman_image_fill_boxes` the boxes
+`(x, y, x + width, y + height)` in the same order -/
+theorem rectsToBoxes_exact (rects : List Rect16) (i : Nat) (hi : i < rects.length) :
+    (rectsToBoxes rects).length = rects.length ∧
+    (rectsToBoxes rects)[i]? = some ⟨rects[i].x, rects[i].y, rects[i].x + rects[i].width,
+      rects[i].y + rects[i].height⟩ := by
+  unfold rectsToBoxes
+  simp [hi]
 
 end Pixman.Props.C19
